@@ -440,38 +440,47 @@ theorem lt_two_right {c : Pt} {a b : Int} : Lt c [a, b] ↔ ∃ x y, c = [x, y] 
 theorem le_two {x y cx cy : Int} : Le [x, y] [cx, cy] ↔ x ≤ cx ∧ y ≤ cy := by
   simp [Le]
 
-/-- second coordinates non-increasing (a staircase, duplicates allowed) -/
-def Desc1 (S : List Pt) : Prop := S.Pairwise (fun p q => y1 q ≤ y1 p)
-
+/-- the sweep with the running minimum: rows only need `x ≤ r0` (any second coordinate, any order of ties in
+column 0, dominated rows and duplicates allowed) -/
 theorem compute2dGo_eq (r0 : Int) (prevY : Int) (S : List Pt)
-    (hS : ∀ p ∈ S, Le p [r0, prevY]) (hs : Sorted0 S) (hd : Desc1 S) :
+    (hS : ∀ p ∈ S, ∃ x y, p = [x, y] ∧ x ≤ r0) (hs : Sorted0 S) :
     compute2dGo r0 prevY S = (unionF [r0, prevY] S).card := by
   induction S generalizing prevY with
   | nil => simp [compute2dGo, unionF]
   | cons p t ih =>
     have hs' := List.pairwise_cons.1 hs
-    have hd' := List.pairwise_cons.1 hd
-    have hp := hS p List.mem_cons_self
-    obtain ⟨x, y, rfl, hx, hy⟩ := le_two_right.1 hp
-    have ht : ∀ q ∈ t, Le q [r0, y] := by
-      intro q hq
-      obtain ⟨qx, qy, rfl, hqx, _⟩ := le_two_right.1 (hS q (List.mem_cons_of_mem _ hq))
-      have := hd'.1 _ hq
-      simp only [y1, List.tail_cons, List.headD_cons] at this
-      exact le_two.2 ⟨hqx, this⟩
+    obtain ⟨x, y, rfl, hx⟩ := hS p List.mem_cons_self
+    have ht : ∀ q ∈ t, ∃ x y, q = [x, y] ∧ x ≤ r0 := fun q hq => hS q (List.mem_cons_of_mem _ hq)
     simp only [compute2dGo, unionF, x0, y1, List.headD_cons, List.tail_cons]
-    rw [ih y ht hs'.2 hd'.2]
+    rw [ih (min prevY y) ht hs'.2]
+    have hmin : min prevY y ≤ prevY := min_le_left _ _
+    have hbox : boxF [x, y] [r0, prevY] = boxF [x, min prevY y] [r0, prevY] := by
+      ext c
+      simp only [mem_boxF]
+      constructor
+      · rintro ⟨h1, h2⟩
+        obtain ⟨cx, cy, rfl, _, _⟩ := lt_two_right.1 h2
+        have := le_two.1 h1
+        exact ⟨le_two.2 ⟨this.1, le_trans (min_le_right _ _) this.2⟩, h2⟩
+      · rintro ⟨h1, h2⟩
+        obtain ⟨cx, cy, rfl, _, hcy⟩ := lt_two_right.1 h2
+        have := le_two.1 h1
+        refine ⟨le_two.2 ⟨this.1, ?_⟩, h2⟩
+        rcases le_total prevY y with h | h
+        · rw [min_eq_left h] at this; omega
+        · rw [min_eq_right h] at this; exact this.2
     have hunion : boxF [x, y] [r0, prevY] ∪ unionF [r0, prevY] t
-        = boxF [x, y] [r0, prevY] ∪ unionF [r0, y] t := by
+        = boxF [x, min prevY y] [r0, prevY] ∪ unionF [r0, min prevY y] t := by
+      rw [hbox]
       ext c
       simp only [Finset.mem_union, mem_unionF, mem_boxF]
       constructor
       · rintro (h | ⟨q, hq, hqc, hc⟩)
         · exact Or.inl h
         · obtain ⟨cx, cy, rfl, hcx, hcy⟩ := lt_two_right.1 hc
-          obtain ⟨qx, qy, rfl, _, _⟩ := le_two_right.1 (ht q hq)
+          obtain ⟨qx, qy, rfl, _⟩ := ht q hq
           have hqc' := le_two.1 hqc
-          by_cases hlow : cy < y
+          by_cases hlow : cy < min prevY y
           · exact Or.inr ⟨_, hq, hqc, lt_two_right.2 ⟨cx, cy, rfl, hcx, hlow⟩⟩
           · have h0 := hs'.1 _ hq
             simp only [x0, List.headD_cons] at h0
@@ -479,8 +488,8 @@ theorem compute2dGo_eq (r0 : Int) (prevY : Int) (S : List Pt)
       · rintro (h | ⟨q, hq, hqc, hc⟩)
         · exact Or.inl h
         · obtain ⟨cx, cy, rfl, hcx, hcy⟩ := lt_two_right.1 hc
-          exact Or.inr ⟨q, hq, hqc, lt_two_right.2 ⟨cx, cy, rfl, hcx, lt_of_lt_of_le hcy hy⟩⟩
-    have hdisj : Disjoint (boxF [x, y] [r0, prevY]) (unionF [r0, y] t) := by
+          exact Or.inr ⟨q, hq, hqc, lt_two_right.2 ⟨cx, cy, rfl, hcx, lt_of_lt_of_le hcy hmin⟩⟩
+    have hdisj : Disjoint (boxF [x, min prevY y] [r0, prevY]) (unionF [r0, min prevY y] t) := by
       rw [Finset.disjoint_left]
       intro c hc1 hc2
       simp only [mem_unionF, mem_boxF] at hc1 hc2
@@ -489,19 +498,31 @@ theorem compute2dGo_eq (r0 : Int) (prevY : Int) (S : List Pt)
       have := (le_two.1 hc1.1).2
       omega
     rw [hunion, Finset.card_union_of_disjoint hdisj]
-    have := card_boxF [x, y] [r0, prevY] hp
+    have := card_boxF [x, min prevY y] [r0, prevY] (le_two.2 ⟨hx, hmin⟩)
     simp only [vol, mul_one] at this
     push_cast
     rw [this]
 
-/-- `_compute_2d` on a column-0-sorted staircase (duplicates allowed) is the dominated area. -/
+/-- `_compute_2d` (running minimum) on rows `≤ r` sorted by column 0 — in ANY order of the ties in column 0, with
+dominated rows and duplicates — is the dominated area. -/
 theorem compute2d_eq_spec' (r : Pt) (hr : r.length = 2) (S : List Pt)
-    (hS : ∀ p ∈ S, Le p r) (hs : Sorted0 S) (hd : Desc1 S) :
+    (hS : ∀ p ∈ S, Le p r) (hs : Sorted0 S) :
     compute2d r S = hvSpec S r := by
   match r, hr with
   | [r0, r1], _ =>
-    simp only [compute2d, x0, y1, List.headD_cons, List.tail_cons, hvSpec]
-    exact compute2dGo_eq r0 r1 S hS hs hd
+    have hS' : ∀ p ∈ S, ∃ x y, p = [x, y] ∧ x ≤ r0 := by
+      intro p hp
+      obtain ⟨x, y, rfl, hx, _⟩ := le_two_right.1 (hS p hp)
+      exact ⟨x, y, rfl, hx⟩
+    have hgo : compute2d [r0, r1] S = compute2dGo r0 r1 S := by
+      cases S with
+      | nil => rfl
+      | cons p t =>
+        obtain ⟨x, y, rfl, _, hy⟩ := le_two_right.1 (hS p List.mem_cons_self)
+        simp only [compute2d, compute2dGo, x0, y1, List.headD_cons, List.tail_cons, min_eq_right hy]
+    rw [hgo]
+    simp only [hvSpec]
+    exact compute2dGo_eq r0 r1 S hS' hs
 
 /-! ## `np.unique(axis=0)` and the column-0 sort -/
 
@@ -687,41 +708,8 @@ theorem unionF_congr (r : Pt) (S S' : List Pt) (h : ∀ q, q ∈ S' ↔ q ∈ S)
 
 /-! ## `compute_hypervolume`, finite core -/
 
-theorem front2dGo_desc (m : Int) (L : List Pt) :
-    Desc1 (front2dGo id m L) ∧ ∀ p ∈ front2dGo id m L, y1 p < m := by
-  induction L generalizing m with
-  | nil => simp [front2dGo, Desc1]
-  | cons q t ih =>
-    simp only [front2dGo, id]
-    split
-    · rename_i h
-      obtain ⟨h1, h2⟩ := ih (y1 q)
-      refine ⟨List.pairwise_cons.2 ⟨fun p hp => le_of_lt (h2 p hp), h1⟩, ?_⟩
-      intro p hp
-      rcases List.mem_cons.1 hp with rfl | hp
-      · exact h
-      · exact lt_trans (h2 p hp) h
-    · exact ih m
-
-theorem front2d_desc (L : List Pt) : Desc1 (front2d id L) := by
-  cases L with
-  | nil => simp [front2d, Desc1]
-  | cons h t =>
-    obtain ⟨h1, h2⟩ := front2dGo_desc (y1 h) t
-    exact List.pairwise_cons.2 ⟨fun p hp => le_of_lt (h2 p hp), h1⟩
-
 /-- no row weakly dominates a different row (duplicates allowed): what `assume_pareto=True` assumes -/
 def Antichain (S : List Pt) : Prop := ∀ p ∈ S, ∀ q ∈ S, Le p q → p = q
-
-theorem desc1_of_antichain (r : Pt) (hr : r.length = 2) (L : List Pt) (hL : ∀ p ∈ L, Le p r)
-    (hs : Sorted0 L) (ha : Antichain L) : Desc1 L := by
-  refine List.Pairwise.imp_of_mem ?_ hs
-  intro p q hp hq hpq
-  by_contra hlt
-  have hle : Le p q := le_of_x0_y1 hr (hL p hp) (hL q hq) hpq (le_of_lt (not_le.1 hlt))
-  have := ha p hp q hq hle
-  subst this
-  exact hlt (le_refl _)
 
 /-- `compute_hypervolume` on finite inputs that passed the reference-point check, default path:
 exact for every dimension and every point list. -/
@@ -740,28 +728,33 @@ theorem computeHypervolumeFin_eq_spec (S : List Pt) (r : Pt) (hS : ∀ p ∈ S, 
   split
   · rename_i h2
     rw [compute2d_eq_spec' r h2 _ hF hsF]
-    · simp only [hvSpec, hun]
-    · simp only [frontSorted, h2]
-      exact front2d_desc _
+    simp only [hvSpec, hun]
   · rw [computeHv_eq_spec r _ hF hsF]
     simp only [hvSpec, hun]
 
-/-- `assume_pareto=True`: exact in every dimension other than 2 whatever the input … -/
-theorem computeHypervolumeFin_assumePareto_eq_spec (S : List Pt) (r : Pt) (hS : ∀ p ∈ S, Le p r)
-    (hd : r.length ≠ 2) : computeHypervolumeFin S r true = hvSpec S r := by
-  simp only [computeHypervolumeFin, if_true, hd, if_false]
-  rw [computeHv_eq_spec r _ (fun p hp => hS p ((mem_sort0 S p).1 hp)) (sorted0_sort0 S)]
-  simp only [hvSpec, unionF_congr r S _ (mem_sort0 S)]
-
-/-- … and in dimension 2 when the input really is mutually non-dominated (duplicates allowed). -/
-theorem computeHypervolumeFin_assumePareto_2d_eq_spec (S : List Pt) (r : Pt) (hS : ∀ p ∈ S, Le p r)
-    (hd : r.length = 2) (ha : Antichain S) : computeHypervolumeFin S r true = hvSpec S r := by
-  simp only [computeHypervolumeFin, if_true, hd]
+/-- `assume_pareto=True`: exact in every dimension whatever the input (2-D: the sweep takes the running minimum) -/
+theorem computeHypervolumeFin_assumePareto_eq_spec_all (S : List Pt) (r : Pt) (hS : ∀ p ∈ S, Le p r) :
+    computeHypervolumeFin S r true = hvSpec S r := by
   have hL : ∀ p ∈ sort0 S, Le p r := fun p hp => hS p ((mem_sort0 S p).1 hp)
-  have ha' : Antichain (sort0 S) := fun p hp q hq h =>
-    ha p ((mem_sort0 S p).1 hp) q ((mem_sort0 S q).1 hq) h
-  rw [compute2d_eq_spec' r hd _ hL (sorted0_sort0 S) (desc1_of_antichain r hd _ hL (sorted0_sort0 S) ha')]
-  simp only [hvSpec, unionF_congr r S _ (mem_sort0 S)]
+  simp only [computeHypervolumeFin, if_true]
+  split
+  · rename_i hd
+    rw [compute2d_eq_spec' r hd _ hL (sorted0_sort0 S)]
+    simp only [hvSpec, unionF_congr r S _ (mem_sort0 S)]
+  · rw [computeHv_eq_spec r _ hL (sorted0_sort0 S)]
+    simp only [hvSpec, unionF_congr r S _ (mem_sort0 S)]
+
+/-- (signature kept for `Lemmas/Hssp.lean`) -/
+theorem computeHypervolumeFin_assumePareto_eq_spec (S : List Pt) (r : Pt) (hS : ∀ p ∈ S, Le p r)
+    (_hd : r.length ≠ 2) : computeHypervolumeFin S r true = hvSpec S r :=
+  computeHypervolumeFin_assumePareto_eq_spec_all S r hS
+
+/-- the 2-D sweep does not depend on the order `argsort` gives to rows with equal first coordinate -/
+theorem compute2d_any_tie_order (r : Pt) (hr : r.length = 2) (S S' : List Pt) (hS : ∀ p ∈ S, Le p r)
+    (hp : S'.Perm S) (hs : Sorted0 S') : compute2d r S' = hvSpec S r := by
+  rw [compute2d_eq_spec' r hr S' (fun p h => hS p (hp.subset h)) hs]
+  simp only [hvSpec]
+  rw [unionF_congr r S S' (fun p => ⟨fun h => hp.subset h, fun h => hp.symm.subset h⟩)]
 
 /-! ## fuel is irrelevant; the recursion equations of `_compute_hv` -/
 
